@@ -57,6 +57,16 @@ Proof.
   - destruct (write_pieces_buf _ _ _ _) as [[? ?] ?]. cbn. auto.
 Qed.
 
+Lemma write_stdout_rec_ext E s rec : ext s (fst (write_stdout_rec E s rec)).
+Proof.
+  unfold write_stdout_rec. destruct (e_mode E) eqn:Em; try apply write_stdout_ext.
+  destruct (cap <? scratch_size)%nat; [|apply write_stdout_ext].
+  destruct (touch_log E s) as (Hl & _).
+  eapply ext_trans; [apply (ext_same s (touch E s)); auto|].
+  eapply ext_trans; [apply (ext_add_log _ (EvWrite WStdout rec)); exact I|].
+  apply ext_same. destruct (write_chunks_buf _ _ _ _) as [[? ?] ?]. cbn. auto.
+Qed.
+
 Lemma child_out_ext E s cg data : ext s (fst (child_out E s cg data)).
 Proof.
   unfold child_out. destruct data as [|b d]; [apply ext_refl|].
@@ -201,16 +211,22 @@ Proof.
   eapply ext_trans; [|apply scan_stream_ext]. apply ext_same; auto.
 Qed.
 
-Lemma step_ext E s o : ext s (fst (step E s o)).
+Lemma step_print_ext E s d ps wr : (forall s1, ext s1 (fst (wr s1))) -> ext s (fst (step_print E s d ps wr)).
 Proof.
-  destruct o as [d ps|n|[n|]|c|n|c| |code| |n]; cbn [step].
-  - pose proof (get_output_stream_ext E s d) as H1. destruct (get_output_stream E s d) as [s1 [[|n]|]]; cbn [fst] in *; auto.
-    + pose proof (write_stdout_ext E s1 ps) as H2. destruct (write_stdout E s1 ps) as [s2 [|]]; cbn [fst] in *; eapply ext_trans; eauto.
+  intros Hwr. unfold step_print.
+  pose proof (get_output_stream_ext E s d) as H1. destruct (get_output_stream E s d) as [s1 [[|n]|]]; cbn [fst] in *; auto.
+    + pose proof (Hwr s1) as H2. destruct (wr s1) as [s2 [|]]; cbn [fst] in *; eapply ext_trans; eauto.
     + destruct (alookup n (st_outs s1)) as [os|]; cbn [fst]; auto.
       set (s1' := add_log s1 _). pose proof (write_ostream_ext E s1' n os (concat ps)) as H2.
       destruct (write_ostream _ _ _ _ _) as [s2 os']. cbn [fst] in *.
       apply (ext_trans _ s1); auto. apply (ext_trans _ s1'); [subst s1'; apply ext_add_log; destruct (os_kind os); exact I|].
       apply (ext_trans _ s2); auto. apply ext_same; auto.
+Qed.
+
+Lemma step_ext E s o : ext s (fst (step E s o)).
+Proof.
+  destruct o as [d ps|n|[n|]|c|n|c| |code| |n|d rec]; cbn [step].
+  - apply step_print_ext. intros s1. apply write_stdout_ext.
   - destruct (alookup n (st_ins s)) as [i|].
     + destruct (if is_cmd i then _ else _) as [code err]. cbn [fst].
       eapply ext_trans; [|apply ext_same; reflexivity]. eapply ext_trans; [|apply if_print_errorf_ext].
@@ -245,6 +261,7 @@ Proof.
   - destruct (amem n (st_outs s)); [apply ext_refl|].
     destruct (negb (amem n (st_ins s)) && negb (amem n (st_fs s))); [apply ext_same; auto|].
     apply (ext_trans _ (add_synced s n)); [apply ext_same; auto|apply getline_file_ext].
+  - apply step_print_ext. intros s1. apply write_stdout_rec_ext.
 Qed.
 
 Lemma exec_ext E ops : forall s, ext s (fst (exec E s ops)).
